@@ -201,6 +201,8 @@ type State struct {
 	race        *raceState
 	schedChoice map[string]int
 	altModels   map[int]Model
+	absSolver   *Solver      // abstracting twin of solver (floating-point arithmetic as free values), created on demand
+	fpArith     map[int]bool // term id -> contains FP arithmetic
 }
 
 type Draw struct {
